@@ -29,7 +29,10 @@ type C17Event struct {
 	Remove  bool     `json:"remove"`            //
 	Invalid string   `json:"invalid,omitempty"` // "", missing:<key>, txtvers, register, localski
 	Addrs   []string `json:"addrs"`
-	Yield   bool     `json:"yield"` // quiescence (synctest.Wait) after this event; otherwise the next event follows in the same burst
+	// Change: the record is valid but one descriptive TXT value differs from the service's usual one
+	// (a device that was reconfigured: register | brand | serial)
+	Change string `json:"change,omitempty"`
+	Yield  bool   `json:"yield"` // quiescence (synctest.Wait) after this event; otherwise the next event follows in the same burst
 }
 
 type C17Script struct {
@@ -43,6 +46,9 @@ type svcModel struct {
 	Register                                  bool
 	Cats                                      []uint
 	Addrs                                     []string
+	// Varied: records with differing descriptive values were reported for this service. Which of
+	// them the entry shows is not stated by the property; addresses and presence are still compared
+	Varied bool
 }
 
 func svcTxt(i int) map[string]string {
@@ -134,6 +140,14 @@ func runC17(sc C17Script) *c17Result {
 			txt["ski"] = localSKI
 			valid = false
 		}
+		switch ev.Change {
+		case "register":
+			txt["register"] = map[string]string{"true": "false", "false": "true"}[txt["register"]]
+		case "brand":
+			txt["brand"] = "rebranded"
+		case "serial":
+			txt["serial"] = "s-new"
+		}
 		var ips []net.IP
 		for _, a := range ev.Addrs {
 			ips = append(ips, net.ParseIP(a))
@@ -157,9 +171,13 @@ func runC17(sc C17Script) *c17Result {
 						m.Addrs = append(m.Addrs, ip.String())
 					}
 				}
+				m.Varied = ev.Change != ""
 				model[ski] = m
 				res.Changes++
 			default:
+				if ev.Change != "" || m.Varied {
+					m.Varied = true
+				}
 				for _, ip := range ips {
 					if !usable(ip) {
 						continue
@@ -209,9 +227,17 @@ func runC17(sc C17Script) *c17Result {
 			last := calls[len(calls)-1]
 			var got, want []string
 			for _, e := range last.List {
+				if m := model[e.Ski]; m != nil && m.Varied {
+					got = append(got, "varied|"+e.Ski)
+					continue
+				}
 				got = append(got, entryKey(e.Name, e.Ski, e.Identifier, e.Brand, e.Type, e.Model, e.Serial, catsOf(e.Categories)))
 			}
 			for _, m := range model {
+				if m.Varied {
+					want = append(want, "varied|"+m.Ski)
+					continue
+				}
 				want = append(want, entryKey(m.Name, m.Ski, m.ID, m.Brand, m.Type, m.Model, m.Serial, m.Cats))
 			}
 			sort.Strings(got)
@@ -234,8 +260,8 @@ func diffEntries(got map[string]*api.MdnsEntry, model map[string]*svcModel) stri
 		if !ok {
 			return "service " + ski + " is missing"
 		}
-		if e.Name != m.Name || e.Identifier != m.ID || e.Brand != m.Brand || e.Type != m.Type || e.Model != m.Model || e.Serial != m.Serial ||
-			e.Register != m.Register || e.Path != "/ship/" || fmt.Sprint(catsOf(e.Categories)) != fmt.Sprint(m.Cats) {
+		if !m.Varied && (e.Name != m.Name || e.Identifier != m.ID || e.Brand != m.Brand || e.Type != m.Type || e.Model != m.Model || e.Serial != m.Serial ||
+			e.Register != m.Register || e.Path != "/ship/" || fmt.Sprint(catsOf(e.Categories)) != fmt.Sprint(m.Cats)) {
 			return fmt.Sprintf("service %s has fields %+v, announced %+v", ski, *e, *m)
 		}
 		var a []string
@@ -295,6 +321,9 @@ func genC17(t *rapid.T) C17Script {
 			ev.Invalid = rapid.SampledFrom([]string{"missing:txtvers", "missing:id", "missing:path", "missing:ski", "missing:register", "txtvers", "register", "localski"}).Draw(t, "invalid")
 		}
 		ev.Addrs = rapid.SliceOfN(rapid.SampledFrom(c17Addrs), 0, 3).Draw(t, "addrs")
+		if ev.Invalid == "" && !ev.Remove && rapid.IntRange(0, 5).Draw(t, "changeP") == 0 {
+			ev.Change = rapid.SampledFrom([]string{"register", "brand", "serial"}).Draw(t, "change")
+		}
 		if ev.Remove {
 			ev.Addrs = nil // avahi reports removals without addresses
 		}
